@@ -117,7 +117,7 @@ theorem reencode_hash_canonical (H : List UInt8 → List UInt8) (env : Env) (T :
     simp [Builder.empty, Builder.app, Builder.toCell]
   exact ⟨hcell, by rw [hcell]⟩
 
-/-- the canonical regenerated descriptors (185 of the named types on the current source, e.g. ExtBlkRef, BlockIdExt's
+/-- the canonical regenerated descriptors (190 of the named types of the environment, 330 of the 721 `wf_` descriptors on the current source, e.g. ExtBlkRef, BlockIdExt's
 parts, HashUpdate, TickTock, SplitMergeInfo, the fixed-layout config parameters, the wallet data records): for every
 entry of the regenerated environment that passes the check, `reencode_hash_canonical` applies -/
 theorem reencode_hash_generated (H : List UInt8 → List UInt8) (T : Ty)
@@ -402,6 +402,23 @@ theorem roundtrip_tlb_Message (fuel : Nat) (v : Val)
     ∃ rest, decode TongoGen.TlbTypes.env fuel TongoGen.TlbTypes.desc_tlb_Message (Slice.ofCell b'.toCell)
       = .ok (v, rest) :=
   decode_encode _ generated_env_wf _ TongoGen.TlbTypes.wf_tlb_Message fuel v hd b' he
+
+set_option maxRecDepth 100000 in
+/-- the hypotheses of `decode_encode` / `roundtrip_generated` are inhabited by values that hold a DICTIONARY and
+REFERENCES (TEST on literals over the regenerated descriptors): a CurrencyCollection with two extra currencies
+(`HashmapE 32 (VarUInteger 32)`: a fork and two leaves), a StateInit with code and data cells — and what the encoder
+writes for the latter passes the cell-level check -/
+example :
+    let v := Val.list [.int 5, Val.list [Val.list [Val.list [.int 7, .int 8], Val.list [.int 9, .int 1000]]]]
+    let c := Cell.mk 0 0 (natToBits 10 700) []
+    let si := Val.list [.none, .none, Val.some (.cell c), Val.some (.cell c), .nil]
+    inDom TongoGen.TlbTypes.env 12 TongoGen.TlbTypes.desc_tlb_CurrencyCollection v = true ∧
+    (encode TongoGen.TlbTypes.env 12 TongoGen.TlbTypes.desc_tlb_CurrencyCollection v Builder.empty).isOk = true ∧
+    inDom TongoGen.TlbTypes.env 12 TongoGen.TlbTypes.desc_tlb_StateInit si = true ∧
+    (match encode TongoGen.TlbTypes.env 12 TongoGen.TlbTypes.desc_tlb_StateInit si Builder.empty with
+      | .ok b => b.refs.length == 2 && canonicalCell TongoGen.TlbTypes.env 12 TongoGen.TlbTypes.desc_tlb_StateInit b.toCell
+      | _ => false) = true := by
+  decide +kernel
 
 /-- `roundtrip_<T>` for the transaction and account records and the wallet bodies (instances of
 `roundtrip_generated`; their `wf_<T>` obligations are regenerated on every run) -/
